@@ -551,6 +551,14 @@ func runCollProgram(p program, out *hx.Out) {
 	for k, so := range p.Subs {
 		subs[k] = thePump.adopt(c.Pull(ctx, readOptions(so)...), false)
 	}
+	// the program's subscriptions are forgotten when it ends: an entry left behind could be mistaken for
+	// a later subscription whose channel happens to get the same address
+	defer func() {
+		cancel()
+		for _, s := range subs {
+			thePump.forget(s)
+		}
+	}()
 	thePump.run(subs, func() bool { return true }, "collecting seeds")
 	base := obsLine{Prog: p.N, Res: "coll", Icpt: p.Icpt, Equiv: p.Equiv, Subs: p.Subs, Msg: mini.Empty(),
 		List: []mini.Msg{}, Idcb: []string{}, Ret: optMsg{V: mini.Empty()}, Inc: allInc(), Mask: mini.Mask{Nil: true},
@@ -680,6 +688,12 @@ func runValProgram(p program, out *hx.Out) {
 		subs[k] = thePump.adopt(v.Pull(ctx, readOptions(so)...), true)
 		held[k] = optMsg{V: mini.Empty()}
 	}
+	defer func() {
+		cancel()
+		for _, s := range subs {
+			thePump.forget(s)
+		}
+	}()
 	thePump.run(subs, func() bool { return true }, "collecting seeds")
 	base := obsLine{Prog: p.N, Res: "val", Icpt: "none", Equiv: p.Equiv, Subs: p.Subs, Msg: mini.Empty(),
 		List: []mini.Msg{}, Idcb: []string{}, Ret: optMsg{V: mini.Empty()}, Inc: allInc(), Mask: mini.Mask{Nil: true},
